@@ -532,26 +532,48 @@ def obs_term(o):
     return {"notfound": "ONotFound", "corrupt": "OCorrupt", "generr": "OGenErr"}.get(o[0], "OGenErr")
 
 
+class Names:
+    """let-bound byte strings of one Coq term (long ids are written once)"""
+
+    def __init__(self):
+        self.m = {}
+
+    def ref(self, x):
+        if len(x.encode("utf-8")) <= 6:
+            return cq(x)
+        if x not in self.m:
+            self.m[x] = "x%d" % len(self.m)
+        return self.m[x]
+
+    def lets(self):
+        return "".join("let %s := %s in " % (v, cq(k)) for k, v in self.m.items())
+
+
 def checkpoint_term(case, cp):
     """one Coq term per checkpoint: [ext; esc; ext_s; esc_s; names_unique t; q...] (a get contributes 3 bits)"""
+    nm = Names()
     lmap = case.get("lmap")
     lay = "None" if case["cfg"]["layout"] == "none" else \
-        "(Some [%s])" % "; ".join("(%s, %s)" % (cq(i), cq_path(split_path(p))) for i, p in sorted(lmap.items()))
+        "(Some [%s])" % "; ".join("(%s, %s)" % (nm.ref(i), cq_path(split_path(p))) for i, p in sorted(lmap.items()))
     bits = ["c19_root_named_extensions t", "c19_id_needs_escape t", "c19_root_named_extensions s",
             "c19_id_needs_escape s", "names_unique t"]
     for q in cp["queries"]:
         if q["kind"] in ("list_objects", "list_staged"):
             tr = "s" if q["kind"] == "list_staged" else "t"
-            g = "None" if q["glob"] is None else "(Some %s)" % cq(q["glob"])
-            bits.append("check_list %s %s [%s] %d" % (tr, g, "; ".join(cq_pid(p, i) for p, i in q["items"]), q["errors"]))
+            g = "None" if q["glob"] is None else "(Some %s)" % nm.ref(q["glob"])
+            bits.append("check_list %s %s [%s] %d" % (
+                tr, g, "; ".join("(%s, %s)" % (cq_path(p), nm.ref(i)) for p, i in q["items"]), q["errors"]))
         else:
             c = q["cache"] or {}
-            cache = "[%s]" % "; ".join("(%s, %s)" % (cq(i), cq_path(p)) for i, p in c.items())
-            ident = cq(q["id"])
-            bits.append("check_get lay %s t %s %s" % (cache, ident, obs_term(q["obs"])))
+            cache = "[%s]" % "; ".join("(%s, %s)" % (nm.ref(i), cq_path(p)) for i, p in c.items())
+            ident = nm.ref(q["id"])
+            o = q["obs"]
+            ot = "(OFound %s %s)" % (cq_path(o[1]), nm.ref(o[2])) if o[0] == "found" else obs_term(o)
+            bits.append("check_get lay %s t %s %s" % (cache, ident, ot))
             bits.append("c19_cache_stale %s t %s" % (cache, ident))
             bits.append("match lay with Some m => c19_layout_path_occupied t (amap m %s) | None => false end" % ident)
-    return "let t := %s in let s := %s in let lay := %s in [%s]" % (cp["tree"], cp["stree"], lay, "; ".join(bits))
+    return "%slet t := %s in let s := %s in let lay := %s in [%s]" % (
+        nm.lets(), cp["tree"], cp["stree"], lay, "; ".join(bits))
 
 
 def needs_escape(i):
@@ -565,26 +587,66 @@ def multiset(xs):
     return d
 
 
+def direct_oracle(case, cp):
+    """model-free statement of the property on every query of a checkpoint: q['msg'] = None | text"""
+    committed, staged = cp["committed"], cp["staged"]
+    for q in cp["queries"]:
+        msg = None
+        if q["kind"] in ("list_objects", "list_staged"):
+            truth = staged if q["kind"] == "list_staged" else committed
+            toks = q["toks"]
+            want = [i for i in truth if toks is None or glob_match_chars(toks, i)]
+            got = [i for _, i in q["items"]]
+            q["want"], q["got"] = want, got
+            if "failed" in q:
+                msg = "the listing call failed: %r" % (q["failed"],)
+            elif q["errors"]:
+                msg = "the listing yielded %d error item(s)" % q["errors"]
+            elif multiset(got) != multiset(want):
+                mg, mw = multiset(got), multiset(want)
+                q["extra"] = [i for i in mg for _ in range(mg[i] - mw.get(i, 0))]
+                q["missing"] = [i for i in mw if mw[i] > mg.get(i, 0)]
+                msg = "listed ids differ from the reference record: missing %r, extra %r" % (q["missing"], q["extra"])
+        else:
+            oid, o = q["id"], q["obs"]
+            if o[0] == "other":
+                msg = "get_object answered with an unexpected result class: %r" % (o[1],)
+            elif oid in committed:
+                if o[0] != "found":
+                    msg = "committed object is not found (%s)" % o[0]
+                elif o[2] != oid:
+                    msg = "get_object(%r) returned object %r" % (oid, o[2])
+            elif o[0] != "notfound":
+                msg = "an id that is not committed (never / purged / staged only) is reported as %s%s" % (
+                    o[0], " id=%r" % (o[2],) if o[0] == "found" else "")
+        q["msg"] = msg
+    return any(q["msg"] for q in cp["queries"])
+
+
 def judge_checkpoint(ctx, case, cp, bits, stats, known_ids):
+    """bits = None: the checkpoint was not evaluated in Coq (only possible when the direct oracle holds everywhere)"""
     layout = case["cfg"]["layout"]
     nolayout = layout == "none"
-    ext, esc, ext_s, esc_s, uniq = bits[:5]
-    pos = 5
     committed, staged = cp["committed"], cp["staged"]
     base = {"layout": layout, "fresh_handle": case["cfg"]["fresh_handle"], "ext_staging": case["cfg"]["ext_staging"],
             "case": case["k"], "committed": committed, "staged": staged, "purged": cp["purged"]}
-    if not uniq:
-        common.corr_break(ctx, "abstracted tree has duplicate names (driver bug)", dict(base))
+    if bits is not None:
+        ext, esc, ext_s, esc_s, uniq = bits[:5]
+        if not uniq:
+            common.corr_break(ctx, "abstracted tree has duplicate names (driver bug)", dict(base))
+    pos = 5
 
-    def report(q, msg, slugs, model_ok):
-        """direct-oracle verdict msg (None = property holds) + candidate known slugs + model agreement"""
+    def report(q, slugs, model_ok):
+        msg = q["msg"]
         stats["queries"] += 1
         key = (layout, case["cfg"]["fresh_handle"], q["kind"], q.get("glob"), q.get("id"), tuple(committed), tuple(staged))
         ctx.count(key, nontrivial=True, sample={"layout": layout, "query": {k: v for k, v in q.items() if k in ("kind", "glob", "id", "raw")},
                                                  "committed": committed, "direct_oracle": msg or "holds", "model_agrees": model_ok})
+        if not msg and model_ok:
+            return
         detail = dict(base, query={k: v for k, v in q.items() if k not in ("toks",)}, replay_case=case)
         if msg:
-            slug = next((s for s in slugs if s in known_ids), None)
+            slug = next((x for x in slugs if x in known_ids), None)
             if slug:
                 ctx.known_hit(slug)
                 stats["known:" + slug] = stats.get("known:" + slug, 0) + 1
@@ -593,66 +655,52 @@ def judge_checkpoint(ctx, case, cp, bits, stats, known_ids):
             else:
                 ctx.violation("impl-violation", dict(detail, input={"case": case["k"], "ops": case["ops"]},
                                                      observed=q.get("items", q.get("obs")), expected=msg))
-        elif not model_ok:
+        else:
             common.corr_break(ctx, "Corr.CheckListing case (model Listing.v vs fs.rs)", detail)
 
     for q in cp["queries"]:
         if q["kind"] in ("list_objects", "list_staged"):
+            is_staged = q["kind"] == "list_staged"
+            toks = q["toks"]
+            stats["list_staged" if is_staged else ("list_glob" if toks is not None else "list_all")] += 1
+            if bits is None:
+                report(q, [], True)
+                continue
             model_ok = bits[pos]
             pos += 1
-            is_staged = q["kind"] == "list_staged"
             truth = staged if is_staged else committed
-            toks = q["toks"]
-            want = [i for i in truth if toks is None or glob_match_chars(toks, i)]
-            got = [i for _, i in q["items"]]
-            msg = None
-            if "failed" in q:
-                msg = "the listing call failed: %r" % (q["failed"],)
-            elif q["errors"]:
-                msg = "the listing yielded %d error item(s)" % q["errors"]
-            elif multiset(got) != multiset(want):
-                msg = "listed ids differ from the reference record: missing %r, extra %r" % (
-                    sorted(set(want) - set(got)), sorted(i for i in got if i not in want or got.count(i) > want.count(i)))
             slugs = []
-            if msg:
+            if q["msg"]:
                 e1, e2 = (ext_s, esc_s) if is_staged else (ext, esc)
-                extra = [i for i in got if i not in want]
-                if nolayout and not is_staged and e2 and extra and multiset([i for i in got if i in want]) == multiset(want) \
-                        and all(i in cp["purged"] and needs_escape(i) for i in extra):
-                    # purge located nothing (scan sees the escaped text), reported success, the object is still there
+                extra, missing = q.get("extra", []), q.get("missing", [])
+                if nolayout and not is_staged and toks is None and e2 and extra and not missing \
+                        and all(needs_escape(i) for i in extra):
+                    # purge (or the existence test of create) located nothing because the scan sees the escaped
+                    # text: purge reports success and leaves the object, a re-creation then duplicates the id
                     slugs.append("id-needs-json-escape")
                 if toks is not None:
                     want_b = [i for i in truth if glob_match_bytes(toks, i)]
-                    if multiset(got) == multiset(want_b) and any(t[0] == "any" for t in toks) and \
+                    if multiset(q["got"]) == multiset(want_b) and any(t[0] == "any" for t in toks) and \
                             any(ord(ch) > 127 for i in truth for ch in i):
                         slugs.append("glob-qmark-one-byte")
                     if e2:
                         slugs.append("id-needs-json-escape")
                 if e1:
                     slugs.append("root-named-extensions")
-            stats["list_staged" if is_staged else ("list_glob" if toks is not None else "list_all")] += 1
-            report(q, msg, slugs, model_ok)
+            report(q, slugs, model_ok)
         else:
+            oid = q["id"]
+            stats["get_committed" if oid in committed else "get_absent"] += 1
+            if bits is None:
+                report(q, [], True)
+                continue
             model_ok, stale, occupied = bits[pos], bits[pos + 1], bits[pos + 2]
             pos += 3
             if not q["coq"]:
                 model_ok = True          # cache of the live handle unknown for this id: direct oracle only
                 stats["get_live_uncompared"] += 1
-            oid, o = q["id"], q["obs"]
-            msg = None
-            if o[0] == "other":
-                msg = "get_object answered with an unexpected result class: %r" % (o[1],)
-            elif oid in committed:
-                if o[0] != "found":
-                    msg = "committed object is not found (%s)" % o[0]
-                elif o[2] != oid:
-                    msg = "get_object(%r) returned object %r" % (oid, o[2])
-            else:
-                if o[0] != "notfound":
-                    msg = "an id that is not committed (never / purged / staged only) is reported as %s%s" % (
-                        o[0], " id=%r" % (o[2],) if o[0] == "found" else "")
             slugs = []
-            if msg:
+            if q["msg"]:
                 if stale:
                     slugs.append("stale-id-path-cache")
                 if occupied:
@@ -663,8 +711,7 @@ def judge_checkpoint(ctx, case, cp, bits, stats, known_ids):
                     slugs.append("root-named-extensions")
                 if nolayout and not case["cfg"]["fresh_handle"] and not q["coq"] and (cp["purged"] or esc):
                     slugs.append("stale-id-path-cache")      # live handle, cache content not observable
-            stats["get_committed" if oid in committed else "get_absent"] += 1
-            report(q, msg, slugs, model_ok)
+            report(q, slugs, model_ok)
 
 
 # --------------------------------------------------------------------------- hand-written inventories
@@ -759,11 +806,16 @@ def execute(ctx, cases, vh, with_crafted=True):
     with concurrent.futures.ThreadPoolExecutor(max_workers=max(4, common.NPROC)) as ex:
         runs = list(ex.map(lambda c: CaseRun(ctx, c).run(), cases))
     common.log("C19: %d cases executed in %.1fs" % (len(cases), time.time() - t0))
-    terms, owners = [], []
+    terms, owners, skipped = [], [], []
     for run in runs:
-        for cp in run.checkpoints:
-            terms.append(checkpoint_term(run.case, cp))
-            owners.append((run, cp))
+        for n, cp in enumerate(run.checkpoints):
+            deviates = direct_oracle(run.case, cp)
+            # every deviating checkpoint, every final one, and a third of the others are evaluated in Coq
+            if deviates or cp["final"] or (run.case["k"] + n) % 3 == 0 or not ctx.quick():
+                terms.append(checkpoint_term(run.case, cp))
+                owners.append((run, cp))
+            else:
+                skipped.append((run, cp))
     craft_qs = None
     if with_crafted:
         t, craft_qs = crafted_repo(ctx)
@@ -791,6 +843,9 @@ def execute(ctx, cases, vh, with_crafted=True):
             raise common.BuildError("unexpected Coq output for a C19 checkpoint: %s" % r[:300])
         stats["checkpoints"] += 1
         judge_checkpoint(ctx, run.case, cp, bits, stats, known_ids)
+    for run, cp in skipped:
+        stats["checkpoints_direct_only"] = stats.get("checkpoints_direct_only", 0) + 1
+        judge_checkpoint(ctx, run.case, cp, None, stats, known_ids)
     if craft_qs is not None:
         bits = parse_bits(res[-1])
         if len(bits) != len(craft_qs):
